@@ -12,6 +12,8 @@ import protorig
 
 import secsgem.common
 import secsgem.hsms
+
+threading.excepthook = lambda args: None  # the listener thread prints EBADF when disable() closes its socket; stray thread deaths are observed through deadlines
 from secsgem.hsms.header import HsmsHeader, HsmsSType
 from secsgem.hsms.message import HsmsMessage
 
